@@ -123,4 +123,39 @@ void h_history(void)
 #endif
 }
 
-const struct sym_entry sym_entries[] = { {"h_stream", h_stream}, {"h_history", h_history}, {0, 0} };
+/* cached-parameter samplers (engine option sym_draws: the raw generator output is a free symbol per draw, so the
+ * generator state at the seeding under test is arbitrary): the same sampler call on the same generator state gives
+ * the same value on a fresh thread and after a prior call with other (or the same) parameters */
+#ifndef SAMPLER
+#define SAMPLER 0
+#endif
+static double cached_call(int sel)
+{
+    static const double shapes[4] = { 2.5, 1.0, 4.0, 0.5 };
+    static const double ps[3] = { 0.25, 0.5, 0.75 };
+    switch (SAMPLER) {
+    case 0: return cmb_random_std_gamma(shapes[sel]);
+    case 1: return (double)cmb_random_geometric(ps[sel % 3]);
+    case 2: return cmb_random_gamma(shapes[sel], 2.0);
+    default: return 0.0;
+    }
+}
+void h_cached(void)
+{
+    int b = (int)sym_choice(SAMPLER == 1 ? 3 : 4, "params_under_test");
+    double r0 = cached_call(b);                       /* fresh thread: caches as initialised */
+    int a = (int)sym_choice(SAMPLER == 1 ? 3 : 4, "params_before");
+    (void)cached_call(a);                             /* prior history with its own draws */
+#if PRIOR >= 2
+    int a2 = (int)sym_choice(SAMPLER == 1 ? 3 : 4, "params_before2");
+    (void)cached_call(a2);
+#endif
+    sym_draws_rewind();                               /* re-seeding with the same seed: same generator state */
+    double r1 = cached_call(b);
+    sym_assert(r0 == r1, "a parameter-caching sampler returns the same value after any prior call");
+#ifdef WITNESS
+    sym_assert(r1 != r1, "WITNESS cached sampler compared");
+#endif
+}
+
+const struct sym_entry sym_entries[] = { {"h_stream", h_stream}, {"h_history", h_history}, {"h_cached", h_cached}, {0, 0} };
